@@ -11,7 +11,7 @@ use std::time::Instant;
 
 pub fn run(tier: Tier) -> i32 {
     let ctx = Ctx::new("C18", "exploration", tier);
-    ctx.set_rule("E5: 3 valid base files with >= 1 block, re-encoded (all CRCs correct) with each unsupported feature: all 16 check IDs consistently in header and footer with a check field of the specified size (real SHA-256 for 0x0A) - accepted iff ID in {0,1,4}; each high bit of the check byte and each bit of the first flags byte; each reserved block-flag bit; filter IDs {delta, BCJ x86..RISC-V, LZMA1-like, 0x20, 0x22, 2^62} as sole filter and ahead of LZMA2 with their correct property sizes; two concatenated streams; stream padding 4..16. Oracle: Err (never Ok). distinct_nontrivial = files carrying exactly one unsupported feature.");
+    ctx.set_rule("E5: 6 valid base files (1-3 blocks with content, 1-2 empty blocks, no block), re-encoded (all CRCs correct) with each unsupported feature: all 16 check IDs consistently in header and footer with a check field of the specified size (real SHA-256 for 0x0A) - accepted iff ID in {0,1,4}; each high bit of the check byte and each bit of the first flags byte; each reserved block-flag bit; filter IDs {delta, BCJ x86..RISC-V, LZMA1-like, 0x20, 0x22, 2^62} as sole filter and ahead of LZMA2 with their correct property sizes; two concatenated streams; stream padding 4..16. Oracle: Err (never Ok). distinct_nontrivial = files carrying exactly one unsupported feature.");
     let t0 = Instant::now();
     let mut bases: Vec<(String, XzFile)> = Vec::new();
     for (nb, sizes) in [(1usize, false), (2, true), (3, false)] {
@@ -23,26 +23,36 @@ pub fn run(tier: Tier) -> i32 {
             .collect();
         bases.push((format!("{} block(s), size fields {}", nb, sizes), XzFile { check_id: 1, blocks, ..Default::default() }));
     }
-    let mut items: Vec<(String, Vec<u8>, bool)> = Vec::new(); // (label, bytes, must_be_ok)
+    // blocks without content, and no block at all: whether a feature is refused must not depend on there being data
+    for nb in [1usize, 2, 0] {
+        let blocks: Vec<Block> = (0..nb)
+            .map(|b| {
+                let (p, plain) = super::c03::stored_payload(0, b);
+                Block { payload: p, plain, with_csize: b == 1, with_usize: b == 1, ..Default::default() }
+            })
+            .collect();
+        bases.push((format!("{} empty block(s)", nb), XzFile { check_id: 1, blocks, ..Default::default() }));
+    }
+    let mut items: Vec<(String, Vec<u8>, bool, usize)> = Vec::new(); // (label, bytes, must_be_ok, end of the first stream if something follows it)
     for (bn, f) in &bases {
         // all 16 check IDs
         for id in 0..16u8 {
             let mut g = f.clone();
             g.check_id = id;
-            items.push((format!("[{}] check ID {:#x} in header and footer, {}-byte check fields", bn, id, xz::check_size(id)), xz::build(&g).0, [0u8, 1, 4].contains(&id)));
+            items.push((format!("[{}] check ID {:#x} in header and footer, {}-byte check fields", bn, id, xz::check_size(id)), xz::build(&g).0, [0u8, 1, 4].contains(&id), 0));
         }
         // high bits of the check byte / bits of the first flags byte (header and footer consistently)
         for bit in 4..8 {
             let mut g = f.clone();
             g.o_hdr_flags = Some([0, f.check_id | (1 << bit)]);
             g.o_ftr_flags = Some([0, f.check_id | (1 << bit)]);
-            items.push((format!("[{}] stream flags second byte bit {} set (header and footer)", bn, bit), xz::build(&g).0, false));
+            items.push((format!("[{}] stream flags second byte bit {} set (header and footer)", bn, bit), xz::build(&g).0, false, 0));
         }
         for bit in 0..8 {
             let mut g = f.clone();
             g.o_hdr_flags = Some([1 << bit, f.check_id]);
             g.o_ftr_flags = Some([1 << bit, f.check_id]);
-            items.push((format!("[{}] stream flags first byte bit {} set (header and footer)", bn, bit), xz::build(&g).0, false));
+            items.push((format!("[{}] stream flags first byte bit {} set (header and footer)", bn, bit), xz::build(&g).0, false, 0));
         }
         // reserved block flag bits
         for bit in 2..6 {
@@ -50,7 +60,7 @@ pub fn run(tier: Tier) -> i32 {
                 let mut g = f.clone();
                 let fl = (if g.blocks[bi].with_csize { 0x40 } else { 0 }) | (if g.blocks[bi].with_usize { 0x80 } else { 0 });
                 g.blocks[bi].o_flags = Some(fl | (1 << bit));
-                items.push((format!("[{}] block {} reserved flag bit {} set", bn, bi, bit), xz::build(&g).0, false));
+                items.push((format!("[{}] block {} reserved flag bit {} set", bn, bi, bit), xz::build(&g).0, false, 0));
             }
         }
         // filters
@@ -84,10 +94,10 @@ pub fn run(tier: Tier) -> i32 {
                 let fspec = (mbi(*id), mbi(props.len() as u64), props.clone());
                 let mut g = f.clone();
                 g.blocks[bi].o_filters = Some(vec![fspec.clone()]);
-                items.push((format!("[{}] block {} sole filter {:#x}", bn, bi, id), xz::build(&g).0, false));
+                items.push((format!("[{}] block {} sole filter {:#x}", bn, bi, id), xz::build(&g).0, false, 0));
                 let mut g = f.clone();
                 g.blocks[bi].o_filters = Some(vec![fspec.clone(), lz.clone()]);
-                items.push((format!("[{}] block {} filter chain {:#x} -> LZMA2", bn, bi, id), xz::build(&g).0, false));
+                items.push((format!("[{}] block {} filter chain {:#x} -> LZMA2", bn, bi, id), xz::build(&g).0, false, 0));
             }
         }
         // two LZMA2 filters in a chain is not something lzma-rs refuses by table (it decodes twice): not submitted.
@@ -96,22 +106,22 @@ pub fn run(tier: Tier) -> i32 {
         for (on, other) in bases.iter().enumerate() {
             let mut two = one.clone();
             two.extend_from_slice(&xz::build(&other.1).0);
-            items.push((format!("[{}] followed by a second stream (base {})", bn, on), two, false));
+            items.push((format!("[{}] followed by a second stream (base {})", bn, on), two, false, one.len()));
         }
         let mut empty2 = one.clone();
         empty2.extend_from_slice(&xz::build(&XzFile { check_id: 1, ..Default::default() }).0);
-        items.push((format!("[{}] followed by an empty stream", bn), empty2, false));
+        items.push((format!("[{}] followed by an empty stream", bn), empty2, false, one.len()));
         for pad in [4usize, 8, 12, 16] {
             let mut p = one.clone();
             p.extend(std::iter::repeat(0u8).take(pad));
-            items.push((format!("[{}] + {} bytes of stream padding", bn, pad), p.clone(), false));
+            items.push((format!("[{}] + {} bytes of stream padding", bn, pad), p.clone(), false, one.len()));
             p.extend_from_slice(&one);
-            items.push((format!("[{}] + {} bytes of stream padding + second stream", bn, pad), p, false));
+            items.push((format!("[{}] + {} bytes of stream padding + second stream", bn, pad), p, false, one.len()));
         }
     }
     let n = items.len() as u64;
     par_for(n, |i| {
-        let (label, bytes, must_ok) = &items[i as usize];
+        let (label, bytes, must_ok, split) = &items[i as usize];
         ctx.eval(1);
         let (v, out, consumed) = dec_plain(Fmt::Xz, &Opts::default(), bytes);
         ctx.traces.fetch_add(1, Ordering::Relaxed);
@@ -127,6 +137,32 @@ pub fn run(tier: Tier) -> i32 {
         if !v.is_err() {
             let case = Case::Dec { fmt: Fmt::Xz, opts: Opts::default(), input: Hex(bytes.clone()), rd: Rd::default(), sk: Sk::default() };
             ctx.violation(&case, &format!("{}: outside the supported subset => Err (never a partial decode reported as success)", label), &obs_of(v, out, consumed), None);
+        }
+        // the refusal must not depend on how the reader presents the data: byte-wise, small buffers, and - where
+        // something follows the first stream - every BufReader capacity and a refill boundary exactly at / around its end
+        let mut rds: Vec<Rd> = vec![Rd { period: 1, ..Rd::default() }, Rd { bufreader: 1, ..Rd::default() }, Rd { bufreader: 3, ..Rd::default() }];
+        if *split > 0 {
+            for c in 1..=(*split + 2) {
+                rds.push(Rd { bufreader: c, ..Rd::default() });
+            }
+            for d in [-2i64, -1, 0, 1, 2, 4] {
+                let c = (*split as i64 + d) as usize;
+                if c > 0 && c < bytes.len() {
+                    rds.push(Rd { cuts: vec![c], ..Rd::default() });
+                }
+            }
+            rds.push(Rd { period: *split, ..Rd::default() });
+        }
+        for rd in rds {
+            let case = Case::Dec { fmt: Fmt::Xz, opts: Opts::default(), input: Hex(bytes.clone()), rd, sk: Sk::default() };
+            let o = crate::cases::run_case(&case);
+            ctx.eval(1);
+            ctx.nontriv(1);
+            ctx.traces.fetch_add(1, Ordering::Relaxed);
+            if !o.v.is_err() {
+                ctx.violation(&case, &format!("{}: outside the supported subset => Err, however the reader presents the data", label), &o, None);
+                break;
+            }
         }
         if i % 41 == 0 {
             ctx.sample(json!({"file": label, "bytes": brief_bytes(bytes)}));
